@@ -11,7 +11,7 @@ K1_C13 = ['DataCollector.collect_agent_statistics', 'DataCollector.record_event'
 PROPS = {
     'C13': dict(
         mods=['contracts.c13_stats'], k1=K1_C13, level='proof',
-        harness='verif/native/c13_harness.py', harness_budget=(15, 60),
+        harness='verif/native/c13_harness.py', harness_budget=(8, 60), always_harness=True,
         explanation='functional contract on DataCollector.collect_agent_statistics (nested loop invariants over the agent '
                     'list and the property dict): for the recorded time, domain of types/states, count, total, max, min and '
                     'mean equal recurrence-defined aggregates over exactly the agents of each (type,state)',
